@@ -145,6 +145,9 @@ TABLE = {
     "PublicKey::to_protobuf_encoding|unwrap:expect#1": {"class": "api", "need": [], "why": "prost encode into a Vec with sufficient capacity cannot fail"},
     "PeerId::from_public_key_protobuf|unwrap:expect#1": {"class": "guard", "need": [["MAX_INLINE_KEY_LENGTH", ">=", "len(key_enc)"]],
         "why": "identity multihash of at most 42 bytes fits Multihash<64> (C18 R18.1/R18.2)"},
+    "peer_id::from|unwrap:expect#1": {"class": "state", "need": [],
+        "why": "every PeerId value was built by from_multihash / from_public_key_protobuf / random, whose accepted (code, length) classes are those of "
+               "libp2p-identity's from_multihash (C18 R18.1 + R18.2, evaluated under C19 as well)"},
     "AddressStore::insert|unwrap:expect#1": {"class": "guard", "need": [["len(self.addresses)", ">=", "self.max_capacity"]],
         "why": "min() of a map with len >= max_capacity > 0 entries (C10 R10.2)"},
 }
